@@ -1,82 +1,101 @@
 ------------------------- MODULE WriterMap_Trace -------------------------
-(* Contract acceptor for traces recorded from the real ChannelWriter (driver *)
-(* harness/drivers/writermap).  One event = one operation on a fresh writer: *)
-(* every downstream call must name / be routed to StmtMap of the source      *)
-(* names (CallOK), the request must have reached the downstream (the         *)
-(* operation is on live objects), drops are recorded under the source names  *)
-(* (recheck) and nothing is recorded under names that only exist as mapping  *)
-(* targets (alias queries must probe).                                       *)
+(* Contract predicates for the events recorded from the real ChannelWriter   *)
+(* (driver harness/drivers/writermap); the acceptor itself (trace variables, *)
+(* dispatch on the event's op) is C09_Trace.tla.                             *)
+(*                                                                           *)
+(* "map"   one operation on a fresh writer (single-operation plans): every   *)
+(*         downstream call must name / be routed to StmtMap of the source    *)
+(*         names (CallOK), the request must have reached the downstream (the *)
+(*         operation is on live objects), drops are recorded under the       *)
+(*         source names (recheck) and nothing is recorded under names that   *)
+(*         only exist as mapping targets (alias queries must probe).         *)
+(* "upd"   UpdateNameMappings(entries) on the live writer: the ghost table   *)
+(*         takes the entries (Override).                                     *)
+(* "hmap"  one operation on the live writer: as "map", judged with the ghost *)
+(*         table = the mapping in force when the operation is handled.       *)
+(* "reset" a fresh writer starts the same history again (Go map order).      *)
+(* "end"   alias queries at the end of a history.                            *)
 (* Known findings (env KF_<name>) excuse exactly the calls they describe.    *)
-EXTENDS WriterMap, IOUtils, SequencesExt
+EXTENDS WriterMap
 
-Traces == ndJsonDeserialize(IOEnv.TRACE_FILE)
-Diag == "TRACE_DIAG" \in DOMAIN IOEnv
-KFOn(n) == ("KF_" \o n) \in DOMAIN IOEnv
+ECOLL(e) == IF "coll" \in DOMAIN e THEN e.coll ELSE C1
 
-VARIABLES tr, l
-tvars == <<vars, tr, l>>
-
-TabOf(ms) == {Entry(ms[i].sdb, ms[i].scoll, ms[i].tdb, ms[i].tcoll) : i \in 1..Len(ms)}
-
-\* which findings excuse the bad call i of event e ({"-"} = none)
-ExcuseCall(e, i, n, tab) ==
+\* which findings excuse the bad call i of event e ({"-"} = none); t = the table in force
+ExcuseCall(e, i, n, t) ==
     LET c == e.calls[i]
-        exp == StmtMap(n, CtxColl(e.kind), tab)
+        coll == ECOLL(e)
+        exp == StmtMap(n, CtxCollOf(e.kind, coll), t)
         own == OwnApi(e.kind)
         ownIdx == {j \in 1..Len(e.calls) : e.calls[j].api = own}
         afterOwn == \E j \in ownIdx : j < i
-        multi == Cardinality({x \in tab : x.sdb = n}) > 1
+        multi == Cardinality({x \in t : x.sdb = n}) > 1
         ordOn == multi /\ KFOn("C09_MAP_ORDER")
-        anyPick == CodeMapSet(n, C1, tab)
+        anyPick == CodeMapSet(n, coll, t)
     IN  IF c.api = "ReleasePartitions" /\ Norm(c.routed) = n /\ KFOn("C09_RELEASEPART_DB")
            /\ (c.coll = exp.coll \/ (ordOn /\ \E x \in anyPick : c.coll = x.coll))
         THEN {"C09_RELEASEPART_DB"} \cup (IF c.coll = exp.coll THEN {} ELSE {"C09_MAP_ORDER"})
         ELSE IF c.api = "AlterIndex" /\ c.routed = "" /\ KFOn("C09_ALTERIDX_DB")
            /\ ((c.coll = exp.coll /\ Norm(c.indb) = exp.db) \/ (ordOn /\ \E x \in anyPick : c.coll = x.coll /\ Norm(c.indb) = x.db))
         THEN {"C09_ALTERIDX_DB"} \cup (IF c.coll = exp.coll /\ Norm(c.indb) = exp.db THEN {} ELSE {"C09_MAP_ORDER"})
-        ELSE IF c.api = "OperatePrivilege" /\ c.indb = e.sdb /\ c.coll = C1 /\ KFOn("C09_PRIV_UNMAPPED") THEN {"C09_PRIV_UNMAPPED"}
+        ELSE IF c.api = "OperatePrivilege" /\ c.indb = e.sdb /\ c.coll = coll /\ KFOn("C09_PRIV_UNMAPPED") THEN {"C09_PRIV_UNMAPPED"}
         ELSE IF e.fail /\ afterOwn /\ e.kind \in {"createPartition", "dropPartition", "releasePartitions"}
                 /\ c.api \in {"DescribeDatabase", "DescribeCollection", "DescribePartition"} /\ KFOn("C09_RECHECK_MAPPED") THEN {"C09_RECHECK_MAPPED"}
         ELSE IF e.kind \in {"createCollection", "dropCollection"} /\ c.api = "DescribeDatabase"
-                /\ Norm(c.indb) \in {x.tdb : x \in {y \in tab : y.sdb = n}} /\ ~multi /\ KFOn("C09_DBPROBE_NOCOLL") THEN {"C09_DBPROBE_NOCOLL"}
+                /\ Norm(c.indb) \in {x.tdb : x \in {y \in t : y.sdb = n}} /\ ~multi /\ KFOn("C09_DBPROBE_NOCOLL") THEN {"C09_DBPROBE_NOCOLL"}
         ELSE IF ordOn
                 /\ (\/ (c.api \in {"CreateDatabase", "DropDatabase", "AlterDatabase", "DescribeDatabase"}
-                         /\ Norm(c.indb) \in {x.tdb : x \in {y \in tab : y.sdb = n}})
+                         /\ Norm(c.indb) \in {x.tdb : x \in {y \in t : y.sdb = n}})
                     \/ (c.api = "Flush" /\ \E x \in anyPick : Norm(c.routed) = x.db /\ c.colls = <<x.coll>>)
                     \/ (c.api \notin {"Flush", "ReplicateMessage", "OperatePrivilege"} /\ \E x \in anyPick : Norm(c.routed) = x.db /\ c.coll = x.coll)
                     \/ (c.api = "ReplicateMessage" /\ \E x \in anyPick : Norm(c.indb) = x.db /\ c.coll = x.coll))
              THEN {"C09_MAP_ORDER"}
         ELSE {"-"}
 
-TInit == Init /\ tr \in 1..Len(Traces) /\ l = 1
-
-MapStep(e) ==
+\* the calls of event e (operation on e.sdb / ECOLL(e)) under table t: every bad call excused; the request reached the downstream
+CallsJudged(pl, e, t) ==
     LET n == Norm(e.sdb)
-        tab == TabOf(e.mapping)
-        bad == BadCalls(e.calls, e.kind, n, tab)
-        ex == UNION {ExcuseCall(e, i, n, tab) : i \in bad}
-        reached == e.kind \in ProbeKinds \/ e.fail \/ ~e.ok
-                   \/ \E i \in 1..Len(e.calls) : e.calls[i].api = OwnApi(e.kind) /\ ~e.calls[i].failed
+        bad == BadCallsC(e.calls, e.kind, n, ECOLL(e), t)
+        ex == UNION {ExcuseCall(e, i, n, t) : i \in bad}
+    IN /\ e.kind \in AllKinds
+       /\ "-" \notin ex
+       /\ \A x \in ex : PrintT("KF " \o pl \o " " \o x)
+
+Reached(e) ==
+    e.kind \in ProbeKinds \/ e.fail \/ ~e.ok
+    \/ \E i \in 1..Len(e.calls) : e.calls[i].api = OwnApi(e.kind) /\ ~e.calls[i].failed
+
+\* ---- "map": one operation on a fresh writer
+MapStep(pl, e) ==
+    LET t == TabOf(e.mapping)
         probeOK == e.kind \in ProbeKinds => e.state = "created" /\ e.recheck = "created" /\ ~e.recheckProbed
         dropOK == (e.kind \in {"dropCollection", "dropPartition", "dropDatabase"} /\ e.ok /\ e.recheck # "")
                      => e.recheck = "dropped" /\ ~e.recheckProbed
         foreign == {i \in 1..Len(e.alias) : ~e.alias[i].probed}
         aliasKF == foreign # {} /\ e.fail /\ e.kind \in {"createPartition", "dropPartition", "releasePartitions"} /\ KFOn("C09_RECHECK_MAPPED")
-    IN /\ e.kind \in AllKinds
-       /\ "-" \notin ex
-       /\ reached /\ probeOK /\ dropOK
+    IN /\ CallsJudged(pl, e, t)
+       /\ Reached(e) /\ probeOK /\ dropOK
        /\ (e.ok \/ e.fail)                                   \* everything exists: only an injected rejection may fail the operation
        /\ foreign = {} \/ aliasKF
-       /\ \A x \in ex : PrintT("KF " \o Traces[tr].plan \o " " \o x)
-       /\ (aliasKF => PrintT("KF " \o Traces[tr].plan \o " C09_RECHECK_MAPPED"))
+       /\ (aliasKF => PrintT("KF " \o pl \o " C09_RECHECK_MAPPED"))
 
-TStep ==
-    /\ l <= Len(Traces[tr].events)
-    /\ LET e == Traces[tr].events[l] IN e.op = "map" /\ MapStep(e)
-    /\ l' = l + 1 /\ tr' = tr
-    /\ UNCHANGED <<hist, obs>>
-    /\ (Diag => PrintT("AT " \o ToString(Traces[tr].plan) \o " " \o ToString(l)))
-    /\ (l = Len(Traces[tr].events) => PrintT("ACC " \o Traces[tr].plan))
+\* ---- "hmap": one operation on the live writer, t = the ghost table (mapping in force)
+HMapStep(pl, e, t) ==
+    /\ CallsJudged(pl, e, t)
+    /\ Reached(e) /\ e.ok /\ ~e.fail
+    /\ (e.kind \in ProbeKinds => e.state = "created")
 
-TSpec == TInit /\ [][TStep]_tvars
+\* ---- "end": names that only exist as mapping targets are unknown to the bookkeeping (a query for them probes)
+EndStep(pl, e) == \A i \in 1..Len(e.alias) : e.alias[i].probed
+
+WriterOps == {"map", "hmap", "upd", "reset", "end"}
+\* ghost table after the event
+WriterTabNext(e, t) ==
+    CASE e.op = "upd" -> Override(t, TabOf(e.entries))
+      [] e.op = "reset" -> {}
+      [] OTHER -> t
+WriterStepOK(pl, e, t) ==
+    CASE e.op = "map" -> MapStep(pl, e)
+      [] e.op = "hmap" -> HMapStep(pl, e, t)
+      [] e.op = "end" -> EndStep(pl, e)
+      [] OTHER -> TRUE
 =============================================================================
